@@ -169,6 +169,15 @@ def step(ex, st, T):
             else:
                 yield s2, ("tuple", (("const", n), it)), ("cenum", inner2, n + 1)
         return
+    if k == "adt" and T[1] == "core::ops::range::Range" and len(T[3]) == 2:
+        lo, hi = T[3]
+        if lo[0] == "const" and hi[0] == "const" and isinstance(lo[1], int) and isinstance(hi[1], int):
+            if lo[1] < hi[1]:
+                yield st, lo, ("adt", T[1], T[2], (("const", lo[1] + 1), hi))
+            else:
+                yield st, None, T
+            return
+        raise NotConcrete("range with symbolic bounds")
     if k == "adt":
         # a user-defined iterator struct whose `next` only forwards to the `next` of one of its fields (checked on its MIR)
         fi = delegating_field(ex, T[1])
@@ -199,11 +208,19 @@ def step(ex, st, T):
         items = _array_items(ex, st, a[0])
         if items is None:
             raise NotConcrete("iter over a collection of unknown length")
+        if m == "iter_mut" and ex.live_iter_mut and a[0][0] == "ref":
+            root, path = a[0][1]
+            yield from step(ex, st, ("citer", tuple(("ref", (root, tuple(path) + (("idx", ("const", i)),)), "mut") for i in range(len(items))), 0))
+            return
         yield from step(ex, st, ("citer", tuple(("&", x) for x in items), 0))
         return
     if m == "into_iter" and len(a) == 1:
         inner = _strip(a[0])
         items = _array_items(ex, st, a[0])
+        if items is not None and ex.live_iter_mut and a[0][0] == "ref" and a[0][2] == "mut":
+            root, path = a[0][1]
+            yield from step(ex, st, ("citer", tuple(("ref", (root, tuple(path) + (("idx", ("const", i)),)), "mut") for i in range(len(items))), 0))
+            return
         if items is not None:
             by_ref = a[0][0] in ("&", "ref")
             yield from step(ex, st, ("citer", tuple((("&", x) if by_ref else x) for x in items), 0))
